@@ -422,3 +422,14 @@ package pilosa
 //@   loop 1 invariant i == 2 || i < 2 * v
 //@   loop 1 invariant exists k :: 1 <= k && k <= 62 && i == pow2(k)
 //@   loop 1 decreases 4611686018427387904 - i
+
+// index.alloc: the table gets exactly `capacity` slots, mask addresses them, and the
+// growth threshold stays below the capacity whenever the load factor is below 100, so
+// a table that grows at the threshold always keeps an empty slot for probing to stop at.
+//@ contract (*index).alloc props C24
+//@   requires idx != nil && 1 <= capacity && capacity <= 72057594037927936
+//@   requires 0 <= idx.loadFactor && idx.loadFactor <= 100
+//@   ensures len(idx.elems) == capacity && idx.mask == capacity - 1
+//@   ensures idx.threshold * 100 <= capacity * idx.loadFactor && idx.threshold <= capacity
+//@   ensures idx.loadFactor < 100 ==> idx.threshold < capacity
+//@   modifies idx.elems, idx.threshold, idx.mask
